@@ -120,6 +120,12 @@ func linkRequests() []linkReq {
 					linkReq{Method: m, Path: "/file.txt", Dest: n + "/new", Overwrite: ow}, linkReq{Method: m, Path: "/dir", Dest: n + "/new", Overwrite: ow})
 			}
 			l = append(l, linkReq{Method: m, Path: n, Dest: "/new", Depth: "0"}, linkReq{Method: m, Path: n, Dest: "/ln-dir/new"}, linkReq{Method: m, Path: n, Dest: "/dangling-deep"})
+			// shallow copies / moves onto what exists already
+			for _, d := range []string{"/file.txt", "/empty", "/dir", "/album"} {
+				for _, ow := range []string{"", "T"} {
+					l = append(l, linkReq{Method: m, Path: n, Dest: d, Depth: "0", Overwrite: ow})
+				}
+			}
 		}
 	}
 	// collections moved or copied to places inside themselves that only a link
